@@ -3,7 +3,7 @@
    ISA specification Isa/X86.v, for ALL values.  The per-encoding breadth part is the in-kernel differential
    check of Isa/C01Check.v (processor + specification as oracles). *)
 From Coq Require Import ZArith List Bool NArith.
-From Falcon Require Import Base.Res IL.Const IL.ConstSpec IL.Expr IL.Func Exec.Sem Isa.X86 Isa.X86Lift Isa.X86Proofs Isa.X86Sim Isa.C01Check Isa.X86Tie.
+From Falcon Require Import Base.Res IL.Const IL.ConstSpec IL.Expr IL.Func Exec.Sem Isa.X86 Isa.X86Lift Isa.X86Proofs Isa.X86Sim Isa.C01Check Isa.X86Tie Isa.X86SimMem Isa.X86SimStack.
 Import ListNotations.
 Local Open Scope Z_scope.
 
@@ -321,3 +321,99 @@ Theorem lea_sim : forall m addr len sz dst src,
   reg_operand_ok m sz (OReg dst) -> width_ok sz -> mem_operand_ok m src -> sim m addr len (ILea sz dst src).
 Proof. exact X86Sim.lea_sim. Qed.
 Print Assumptions lea_sim.
+
+(* 13. memory operands.  [sim_when P]: as [sim], for the states satisfying P; P = [no_wrap sz o]: the bytes accessed,
+       [ea, ea + sz/8), lie inside the address space of the operand's address size.  Byte memory: Sem's mem_load /
+       mem_store agree with the specification's mem_rd / mem_wr at 8/16/32/64 bits. *)
+Theorem mem_load_spec : forall xm bm asz sz a v,
+  mem_agree xm bm -> bm_big bm = false -> width_ok sz -> 0 <= a -> a + sz / 8 <= 2 ^ asz -> asz <= 64 ->
+  mem_rd xm asz a (nbytes sz) = Some v -> mem_load bm a sz = Ok (mkc sz v).
+Proof. exact X86SimMem.mem_load_spec. Qed.
+Print Assumptions mem_load_spec.
+Theorem mem_store_spec : forall xm bm asz sz a v xm',
+  mem_agree xm bm -> bm_big bm = false -> width_ok sz -> 0 <= a -> a + sz / 8 <= 2 ^ asz -> asz <= 64 ->
+  mem_wr xm asz a v (nbytes sz) = Some xm' ->
+  exists bm', mem_store bm a (mkc sz v) = Ok bm' /\ mem_agree xm' bm' /\ bm_big bm' = false.
+Proof. exact X86SimMem.mem_store_spec. Qed.
+Print Assumptions mem_store_spec.
+Theorem mov_load_sim : forall m addr len sz dst src,
+  reg_operand_ok m sz dst -> mem_operand_ok m src -> width_ok sz -> sim_when (no_wrap sz src) m addr len (IMov sz dst src).
+Proof. exact X86SimMem.mov_load_sim. Qed.
+Print Assumptions mov_load_sim.
+Theorem mov_store_sim : forall m addr len sz dst src,
+  mem_operand_ok m dst -> src_operand_ok m sz src -> width_ok sz -> sim_when (no_wrap sz dst) m addr len (IMov sz dst src).
+Proof. exact X86SimMem.mov_store_sim. Qed.
+Print Assumptions mov_store_sim.
+Theorem add_load_sim : forall m addr len sz dst src,
+  reg_operand_ok m sz dst -> mem_operand_ok m src -> width_ok sz -> sim_when (no_wrap sz src) m addr len (IAlu AAdd sz dst src).
+Proof. exact X86SimMem.add_load_sim. Qed.
+Print Assumptions add_load_sim.
+Theorem sub_load_sim : forall m addr len sz dst src,
+  reg_operand_ok m sz dst -> mem_operand_ok m src -> width_ok sz -> sim_when (no_wrap sz src) m addr len (IAlu ASub sz dst src).
+Proof. exact X86SimMem.sub_load_sim. Qed.
+Print Assumptions sub_load_sim.
+Theorem cmp_load_sim : forall m addr len sz dst src,
+  reg_operand_ok m sz dst -> mem_operand_ok m src -> width_ok sz -> sim_when (no_wrap sz src) m addr len (IAlu ACmp sz dst src).
+Proof. exact X86SimMem.cmp_load_sim. Qed.
+Print Assumptions cmp_load_sim.
+Theorem logic_load_sim : forall m addr len o op f sz dst src,
+  logic_alu o = Some (op, f) -> reg_operand_ok m sz dst -> mem_operand_ok m src -> width_ok sz ->
+  sim_when (no_wrap sz src) m addr len (IAlu o sz dst src).
+Proof. exact X86SimMem.logic_load_sim. Qed.
+Print Assumptions logic_load_sim.
+Theorem movx_load_sim : forall m addr len (sg : bool) dsz ssz dst src,
+  reg_operand_ok m dsz (OReg dst) -> mem_operand_ok m src -> width_ok dsz -> width_ok ssz -> ssz < dsz ->
+  sim_when (no_wrap ssz src) m addr len (IMovx sg dsz ssz dst src).
+Proof. exact X86SimMem.movx_load_sim. Qed.
+Print Assumptions movx_load_sim.
+Theorem add_rmw_sim : forall m addr len sz dst src,
+  mem_operand_ok m dst -> src_operand_ok m sz src -> width_ok sz -> sim_when (no_wrap sz dst) m addr len (IAlu AAdd sz dst src).
+Proof. exact X86SimMem.add_rmw_sim. Qed.
+Print Assumptions add_rmw_sim.
+Theorem sub_rmw_sim : forall m addr len sz dst src,
+  mem_operand_ok m dst -> src_operand_ok m sz src -> width_ok sz -> sim_when (no_wrap sz dst) m addr len (IAlu ASub sz dst src).
+Proof. exact X86SimMem.sub_rmw_sim. Qed.
+Print Assumptions sub_rmw_sim.
+Theorem tie_transfers_when : forall P m addr len i g succ,
+  syntactic_tie m addr len i g succ = true -> sim_when P m addr len i ->
+  forall s st s' ip, wf m s -> emb m s st -> P s -> step m (addr + len) i s = XNext s' ip ->
+    exists st', X86Run.run_instr 600 g succ addr st = X86Run.RunOk st' (Some ip) /\ emb m s' st' /\ wf m s'.
+Proof. exact X86SimMem.tie_transfers_when. Qed.
+Print Assumptions tie_transfers_when.
+Theorem logic_rmw_sim : forall m addr len o op f sz dst src,
+  logic_alu o = Some (op, f) -> mem_operand_ok m dst -> src_operand_ok m sz src -> width_ok sz ->
+  sim_when (no_wrap sz dst) m addr len (IAlu o sz dst src).
+Proof. exact X86SimMem.logic_rmw_sim. Qed.
+Print Assumptions logic_rmw_sim.
+Theorem cmp_mem_sim : forall m addr len sz dst src,
+  mem_operand_ok m dst -> src_operand_ok m sz src -> width_ok sz -> sim_when (no_wrap sz dst) m addr len (IAlu ACmp sz dst src).
+Proof. exact X86SimMem.cmp_mem_sim. Qed.
+Print Assumptions cmp_mem_sim.
+Theorem incdec_rmw_sim : forall m addr len (sub : bool) sz dst,
+  mem_operand_ok m dst -> width_ok sz -> sim_when (no_wrap sz dst) m addr len (IUn (if sub then UDec else UInc) sz dst).
+Proof. exact X86SimMem.incdec_rmw_sim. Qed.
+Print Assumptions incdec_rmw_sim.
+
+(* 14. stack: push r|imm|[m] (incl. push rsp, 16-bit operands) and pop r|[m] (incl. pop rsp; the address of a memory
+       destination is computed with the advanced stack pointer), under the condition that the stack access (and
+       the operand access) does not cross the end of the address space *)
+Theorem push_sim : forall m addr len sz src,
+  src_operand_ok m sz src -> width_ok sz -> sim_when (push_no_wrap m sz) m addr len (IPush sz src).
+Proof. exact X86SimStack.push_sim. Qed.
+Print Assumptions push_sim.
+Theorem pop_sim : forall m addr len sz dst,
+  reg_operand_ok m sz dst -> width_ok sz -> sim_when (pop_no_wrap m sz) m addr len (IPop sz dst).
+Proof. exact X86SimStack.pop_sim. Qed.
+Print Assumptions pop_sim.
+Theorem push_mem_sim : forall m addr len sz src,
+  mem_operand_ok m src -> width_ok sz ->
+  sim_when (fun s => no_wrap sz src s /\ push_no_wrap m sz s) m addr len (IPush sz src).
+Proof. exact X86SimStack.push_mem_sim. Qed.
+Print Assumptions push_mem_sim.
+Theorem pop_mem_sim : forall m addr len sz dst,
+  mem_operand_ok m dst -> width_ok sz ->
+  sim_when (fun s => pop_no_wrap m sz s /\
+                     no_wrap sz dst (set_gpr s (rset (x_gpr s) X86.SP (U (wordsz m) (rget (x_gpr s) X86.SP + sz / 8)))))
+           m addr len (IPop sz dst).
+Proof. exact X86SimStack.pop_mem_sim. Qed.
+Print Assumptions pop_mem_sim.
